@@ -334,6 +334,12 @@ func (fc *FnCtx) applyContract(con *Contract, c *ssa.CallCommon, args []Val, rt 
 	se := fc.specEnv(con.PkgPath, pre, pre)
 	for i, n := range names {
 		a := args[i]
+		if a.Loc != nil && byReferenceArg(a) {
+			// interior pointer to a mutable aggregate (slice, map, struct): passed by reference; the contract reads
+			// and writes it through the caller's location
+			se.vars[n] = a
+			continue
+		}
 		if a.Loc != nil {
 			m, err := fc.materialize(a)
 			if err != nil {
@@ -467,10 +473,12 @@ func (fc *FnCtx) modTargets(items []ast.Expr, se *SpecEnv) ([]modTarget, error) 
 			}
 			if l.Kind == locObj {
 				for _, f := range fc.vc.fieldsOf(l.Typ) {
-					add(fieldComp(l.Typ, f.name), arraySort(string(f.sort)), p.T)
+					add(fieldComp(l.Typ, f.name), arraySort(string(f.sort)), l.Ref)
 				}
+			} else if l.Kind == locElem {
+				add(l.Comp, arraySort(arraySort(fc.sortStr(l.rootType()))), l.Ref)
 			} else {
-				add(l.Comp, arraySort(fc.sortStr(l.Typ)), p.T)
+				add(l.Comp, arraySort(fc.sortStr(l.rootType())), l.Ref)
 			}
 		case *ast.CallExpr:
 			id, _ := x.Fun.(*ast.Ident)
@@ -1278,6 +1286,18 @@ func (fc *FnCtx) mayReach(from, to *ssa.BasicBlock) bool {
 		}
 		seen[b] = true
 		stack = append(stack, b.Succs...)
+	}
+	return false
+}
+
+// byReferenceArg: interior pointers to slices, maps and structs are passed to contracts by reference.
+func byReferenceArg(a Val) bool {
+	if a.Loc == nil {
+		return false
+	}
+	switch a.Loc.Typ.Underlying().(type) {
+	case *types.Slice, *types.Map, *types.Struct:
+		return true
 	}
 	return false
 }
